@@ -377,7 +377,7 @@ func genPlanC10(t *rapid.T) Plan {
 		if rapid.IntRange(0, 6).Draw(t, "flip") == 0 {
 			clean = !clean
 		}
-		op := Op{K: "connect", C: c, Clean: clean, Pipe: rapid.SampledFrom([]int{0, 0, 0, 0, 0, 0, 1, 2}).Draw(t, "pipe")}
+		op := Op{K: "connect", C: c, Clean: clean, Pipe: rapid.SampledFrom([]int{0, 0, 0, 0, 0, 0, 1, 2}).Draw(t, "pipe"), KA0: rapid.IntRange(0, 4).Draw(t, "ka0") == 0}
 		if rapid.IntRange(0, 3).Draw(t, "will") == 0 {
 			// a will, sometimes on a topic nobody can receive (what happens to the will must not decide what happens to the session)
 			op.Will = &Will{Topic: rapid.SampledFrom([]string{"w/x", "$SYS/w", "$w"}).Draw(t, "wt"), Size: 3, QoS: byte(rapid.IntRange(0, 1).Draw(t, "wq"))}
@@ -455,6 +455,7 @@ func genPlanC09(t *rapid.T) Plan {
 		case k < 8:
 			op := Op{K: "connect", C: c, Clean: cleanOf[c], EOFData: rapid.IntRange(0, 3).Draw(t, "eofdata") == 0}
 			op.Pipe = rapid.SampledFrom([]int{0, 0, 0, 0, 0, 0, 1, 2, 2}).Draw(t, "pipe")
+			op.KA0 = rapid.IntRange(0, 4).Draw(t, "ka0") == 0
 			if rapid.IntRange(0, 5).Draw(t, "flipclean") == 0 {
 				op.Clean = !op.Clean
 			}
